@@ -105,6 +105,18 @@ func (x *C08Case) filter(set []int) argmapper.FilterFunc {
 	return typeFilter(set)
 }
 
+// permits: the documented semantics of a filter built from FilterType over
+// the listed types -- the same type, or an implementation of a listed
+// interface type.
+func permits(set []int, t int) bool {
+	for _, s := range set {
+		if s == t || (engine.IsIface(s) && engine.Implements(t, s)) {
+			return true
+		}
+	}
+	return false
+}
+
 func inSet(set []int, t int) bool {
 	for _, s := range set {
 		if s == t {
@@ -129,7 +141,7 @@ func evalC08(c *engine.Case) engine.Verdict {
 	outRejected := false
 	if x.HasOut {
 		for _, l := range sc.Target.Out {
-			if !inSet(x.OutFilter, l.Type) {
+			if !permits(x.OutFilter, l.Type) {
 				outRejected = true
 			}
 		}
@@ -138,7 +150,7 @@ func evalC08(c *engine.Case) engine.Verdict {
 	rejectedParam := false
 	if x.HasIn {
 		for _, p := range sc.Target.In {
-			if !inSet(x.InFilter, p.Type) {
+			if !permits(x.InFilter, p.Type) {
 				allParamsPermitted = false
 				rejectedParam = true
 			}
@@ -194,7 +206,11 @@ func evalC08(c *engine.Case) engine.Verdict {
 		w.DeficientFirst = true
 		w.RepeatOnFailure = true
 		w.AliasProbe = true
+		w.ProvideIfaceInputs = true
 		rf, rerr, rpanic, fresh, o := w.RedefineCall(target, args)
+		if rep == 0 && w.Providers > 0 {
+			v.Class("named-interface-input-given-by-a-provider")
+		}
 		if fc := w.FirstComplete; fc != nil && v.Fail == "" {
 			// the first complete call ended with a body error
 			memoized := false
@@ -259,7 +275,7 @@ func evalC08(c *engine.Case) engine.Verdict {
 		// (a) every input passes the filter, (b) none was already supplied
 		for _, iv := range rf.Input().Values() {
 			ti := engine.TypeIdx(iv.Type)
-			if x.HasIn && !inSet(x.InFilter, ti) {
+			if x.HasIn && !permits(x.InFilter, ti) {
 				v.Failf("redefined function demands %s, which the input filter %v rejects", iv.String(), x.InFilter)
 			}
 			if iv.Subtype != "" {
@@ -501,6 +517,15 @@ func genC08(g engine.G) *engine.Case {
 			x.OutFilter = append(x.OutFilter, g.Int(0, 5))
 		}
 		x.OutFilter = uniqInts(x.OutFilter)
+	}
+	if t := &b.Sc.Target; g.Pct(12) && t.InForm != engine.FormPos {
+		// a NAMED parameter of interface type that nothing supplies: the
+		// redefined function has to declare it under exactly that type
+		it := engine.Pick(g, []int{engine.TypeI0, engine.TypeI1, engine.TypeAny})
+		t.In = append(t.In, engine.Label{Name: "zi", Type: it, Dyn: it, Tag: g.Bool()})
+		if x.HasIn && g.Pct(75) {
+			x.InFilter = uniqInts(append(x.InFilter, it))
+		}
 	}
 	x.FiltersAsDefaults = g.Pct(20)
 	if g.Pct(30) {
